@@ -392,6 +392,18 @@ def rules(ck, P):
                 why = "the stamp is not set from the counter"
         ck.check(ok_ret, "T1", b["q"] + "|returns-stored", "get returns a clone of the value stored under the key", "get does not return the value bound from the map entry", ir.loc(b))
         ck.check(stamp_ok, "R1", b["q"] + "|stamp", "get stamps the entry with a freshly incremented counter", "get does not stamp the entry with a fresh maximum: " + why, ir.loc(b))
+        # ... on EVERY hit: the only condition above the stamp assignment is the hit itself (a hit that keeps its old stamp "because it is
+        # recent enough" can be at the median when the next insertion evicts, and is dropped although it was just used)
+        extra = []
+        for n, parents, _ in ir.walk(b["body"]):
+            if n.get("k") == "assign" and ir.local_hid(n["l"]) in stamp_h:
+                for p_ in parents:
+                    if p_.get("k") == "if" and not (lookups and ir.contains(p_["c"], lambda y: y is lookups[0])):
+                        extra.append((p_["c"].get("src") or ir.place_str(p_["c"]) or "condition")[:60])
+                    elif p_.get("k") == "match" and not (lookups and ir.contains(p_["e"], lambda y: y is lookups[0])):
+                        extra.append("match")
+        ck.check(stamp_ok and not extra, "R1", b["q"] + "|stamp-every-hit", "every hit is restamped: nothing but the hit itself conditions the stamp assignment",
+                 "a hit is restamped only under %s: an entry that was just used can keep an old stamp, reach the median and be evicted by the next insertion" % extra, ir.loc(b))
     gos = [b for b in methods if b["q"].endswith("::get_or_set")]
     if ck.anchor("T1", "get_or_set", gos, 1):
         b = gos[0]
